@@ -1300,6 +1300,12 @@ def iso_base():
         P("iso-await", SJ(2) + JJ(2), [st("y", 1), st("x", 1, "rel")], [await_("x", "acq"), ld("y")]),
         P("iso-scfence-stale", [spawn(2), fence("sc"), ld("f"), ld("x"), join(2)], [st("x", 1), st("f", 1), fence("sc")]),
         P("iso-scfence-3", SJ(3) + JJ(3), [st("x", 1), fence("sc"), ld("y")], [st("y", 1), fence("sc"), ld("x")], [fence("sc"), ld("x"), ld("y")]),
+        # a thread yields while every other thread is blocked (it is rescheduled still yielded), then unblocks one
+        P("iso-yield-while-others-blocked", [L("lock", "m"), spawn(2), I("yield"), I("yield"), L("unlock", "m"), L("lock", "m"), ld("x"), L("unlock", "m"), join(2)],
+          [ld("y"), L("lock", "m"), st("x", 1), L("unlock", "m")]),
+        P("iso-yield-while-others-blocked-3", [L("lock", "m"), spawn(2), spawn(3), I("yield"), st("y", 1), I("yield"), L("unlock", "m"), L("lock", "m"), ld("x"), L("unlock", "m"),
+                                                join(2), join(3)],
+          [ld("y"), L("lock", "m"), fadd("x", 1), L("unlock", "m")], [ld("y"), L("lock", "m"), fadd("x", 2), L("unlock", "m")]),
     ]
     B = [
         P("dis-leak-msg", [spawn(2), join(2)], [L("send", "ch", v=7), L("send", "ch", v=8)]),
